@@ -647,6 +647,32 @@ end
 section
 open P
 
+/-- **`S d1 , … , dn ;` through `parse()`'s loop**, any type specifier, ANY NUMBER of declarators each with its own prefix
+    (`const T * a , & b , * const * c ;`): exactly one `on_variable` per declarator, in order, each with its own name and the
+    type ITS prefix denotes over the shared type — nothing leaks from one declarator into the next -/
+theorem C01_declaration_statement_general (env : Env) (hp : RulesProgress env.cfg = true) (hnf : env.faultAt = none) (F D : Nat) (w : World)
+    (toks : List Tok) (first : Tok) (trest : List Tok) (segs : List PQSeg) (cst vol : Bool) (ds : List (Dtor × DType)) (last : Dtor × DType) (b1 b0 b' : Buf)
+    (blk : Block) (rest : List Block) (hstack : w.stack = blk :: rest) (hk : blk.hdr.kind ≠ .cls) (hmu : w.muted = false)
+    (hspec : TypeSpecR env F D toks segs cst vol) (hspectoks : toks = first :: trest) (hfirst : specFirst first.type = true)
+    (htok : tokenEofOk env.cfg w.buf = .ok (some first, b1))
+    (hy0 : Yields env.cfg b1 trest b0)
+    (hhead : ∀ o ∈ (firstDtor ds last).ops.head?, declStart o.type = true ∧ o.value ≠ "auto")
+    (hds : ∀ p ∈ ds, p.1.OKp env F (D + 1) (.type (.mk segs none false) cst vol) p.2 ∧ p.1.sep.type = ",")
+    (hlast : last.1.OKp env F (D + 1) (.type (.mk segs none false) cst vol) last.2)
+    (hsep : last.1.sep.type = ";")
+    (hy : Yields env.cfg b0 (ds.flatMap (fun p => p.1.toks) ++ last.1.toks) b')
+    (hF : 2 ≤ F) (hF2 : ds.length + 1 ≤ F) :
+    ∃ (d : Option String) (bD : Buf) (wF : World) (evs : List Event) (doxs : List (Option String)) (blkF : Block),
+      getDoxygen env.cfg env.mcRe w.buf = .ok (d, bD) ∧
+      interp env (mainBody F (core F (D + 1 + 1)) none) w = (wF, .ok (.inl none)) ∧
+      SigEq b' wF.buf ∧ wF.stack = blkF :: rest ∧ blkF.id = blk.id ∧ blkF.hdr = blk.hdr ∧
+      wF.events = w.events ++ evs ∧ doxs.length = ds.length + 1 ∧
+      evs.map (·.kind) = varKinds (ds ++ [last]) doxs ∧ (∀ e ∈ evs, e.stateId = blk.id ∧ e.parentId = rest.head?.map (·.id)) ∧
+      (∀ dd, d = some dd → doxs.head? = some (some dd)) ∧
+      wF.delivered = w.delivered + (ds.length + 1) ∧ wF.anon = w.anon ∧ wF.muted = false ∧ wF.nextId = w.nextId ∧
+      ∃ l, blkF = { blk with loc := l } :=
+  toplevel_variables_pre env hp hnf F D w toks first trest segs cst vol ds last b1 b0 b' blk rest hstack hk hmu hspec hspectoks hfirst htok hy0 hhead hds hlast hsep hy hF hF2
+
 /-- **`typedef S prefix x ;` through `parse()`'s loop**, any type specifier, any declarator prefix, in any block: exactly ONE
     `on_typedef` with the name `x` and the type the prefix denotes over the type `S` denotes -/
 theorem C01_typedef_general (env : Env) (hp : RulesProgress env.cfg = true) (F D : Nat) (w : World)
